@@ -21,10 +21,10 @@ Qed.
 Lemma nth_app_len {A} (l : list A) x r d : nth (length l) (l ++ x :: r) d = x.
 Proof. rewrite app_nth2 by lia. rewrite Nat.sub_diag. reflexivity. Qed.
 
-Lemma conv_params_1d b ci co m n s full : (full = false -> n <= m) ->
+Lemma conv_params_1d b ci co m n s full :
   conv_params (b ++ [ci; m]) [co; ci; n] full (Some [s]) true = Ok (b, co, [plen full m n s]).
 Proof.
-  intros Hv. unfold conv_params.
+  unfold conv_params.
   change (length [co; ci; n] <? 2 + 1)%nat with false. cbv iota.
   change (length [co; ci; n] - 2)%nat with 1%nat.
   rewrite app_length. cbn [length].
@@ -44,10 +44,8 @@ Proof.
   change (Nat.eqb (length [s]) 1) with true. cbn [negb]. cbv iota.
   destruct full.
   - reflexivity.
-  - specialize (Hv eq_refl). cbn [combine existsb fst snd zip3 plen].
-    replace (n <=? m) with true by (symmetry; apply Z.leb_le; lia).
-    replace (m <? n) with false by (symmetry; apply Z.ltb_ge; lia).
-    reflexivity.
+  - cbn [combine existsb fst snd zip3 plen]. rewrite !orb_false_r.
+    rewrite (Z.ltb_antisym n m), andb_negb_r. reflexivity.
 Qed.
 
 Lemma lastn1_dsh (b : list Z) ci m : lastn 1 (b ++ [ci; m]) = [m].
@@ -90,7 +88,7 @@ Section C1.
     convolve (b ++ [ci; m]) [co; ci; n] full (Some [s]) true data filt =
     Ok (b ++ [co; P], reshape (B :: co :: [P]) (b ++ [co; P]) (conv_out2 data filt)).
   Proof.
-    unfold convolve. rewrite conv_params_1d by exact Hv. cbn [bind].
+    unfold convolve. rewrite conv_params_1d. cbn [bind].
     change (cv_D [co; ci; n] true) with 1%nat.
     rewrite lastn1_dsh. change (lastn 1 [co; ci; n]) with [n].
     change (cv_s 1 (Some [s])) with [s]. change (cv_ci [co; ci; n] 1 true) with ci.
@@ -147,4 +145,384 @@ Section C1.
     - apply win_ext. intros u Hu. unfold sub2. apply data2_at; assumption.
     - unfold sub2. apply reshape_id. simpl. lia.
   Qed.
+
+  (* ================= data adjoint ================= *)
+  Notation Ln := (len1 full m n).
+
+  Lemma prod_osh : (prodZ (b ++ [co; P]) =? B * co * prodZ [P])%Z = true.
+  Proof. apply Z.eqb_eq. rewrite prodZ_app. cbn [prodZ]. ring. Qed.
+
+  Lemma cv_L_1d : cv_L full [m] [n] = [Ln].
+  Proof. unfold cv_L, len1. destruct full; reflexivity. Qed.
+
+  Lemma data_amode_1d : data_adjoint_mode full [m] [n] = negb full.
+  Proof.
+    unfold data_adjoint_mode. destruct full; [reflexivity|]. specialize (Hv eq_refl).
+    cbn [all_ge combine forallb fst snd]. replace (n <=? m)%Z with true by (symmetry; apply Z.leb_le; lia). reflexivity.
+  Qed.
+
+  Lemma sp_shape_dadj : sp_shape (negb full) [Ln] [n] = Ok [m].
+  Proof.
+    unfold sp_shape, len1. destruct full; cbn [negb].
+    - cbn [all_ge combine forallb fst snd]. replace (n <=? m + n - 1)%Z with true by (symmetry; apply Z.leb_le; lia).
+      cbn [andb orb zip2]. f_equal. f_equal. lia.
+    - specialize (Hv eq_refl). cbn [zip2]. f_equal. f_equal. lia.
+  Qed.
+
+  Lemma corr_shift_dadj : sp_corr_shift (negb full) [Ln] [n] = [off1 full m n].
+  Proof.
+    unfold sp_corr_shift, len1, off1. destruct full; cbn [negb map zip2]; f_equal; [lia|].
+    specialize (Hv eq_refl). lia.
+  Qed.
+
+  Definition dadj_out2 (y filt : farr) : farr :=
+    let output2 := reshape (b ++ [co; P]) (B :: co :: [P]) y in
+    let filt2 := reshape [co; ci; n] (co :: ci :: [n]) filt in
+    fun idx => match idx with
+      | k :: i :: x => sumL (zrange 0 co 1) (fun j =>
+            sp_correlate_val (negb full) [Ln] [n] (zero_stuff [s] (sub2 output2 k j)) (sub2 filt2 j i) x)
+      | _ => 0 end.
+
+  Lemma data_adjoint_1d_eval (y filt : farr) :
+    convolve_data_adjoint (b ++ [co; P]) [co; ci; n] (b ++ [ci; m]) full (Some [s]) true y filt =
+    Ok (b ++ [ci; m], reshape (B :: ci :: [m]) (b ++ [ci; m]) (dadj_out2 y filt)).
+  Proof.
+    unfold convolve_data_adjoint. rewrite conv_params_1d. cbn [bind].
+    change (cv_D [co; ci; n] true) with 1%nat.
+    rewrite lastn1_dsh. change (lastn 1 [co; ci; n]) with [n].
+    change (cv_s 1 (Some [s])) with [s]. change (cv_ci [co; ci; n] 1 true) with ci.
+    pose proof (plen_pos full m n s Hm Hn Hs Hv) as HP.
+    unfold all_pos. cbn [forallb]. replace (0 <? P)%Z with true by (symmetry; apply Z.ltb_lt; exact HP).
+    cbn [andb negb]. cbv iota.
+    rewrite prod_osh. cbn [negb]. cbv iota.
+    rewrite cv_L_1d, data_amode_1d.
+    unfold strided_shape. cbn [zip2]. rewrite strided_P by exact Hv.
+    unfold zlist_eqb. cbn [list_eqb]. rewrite Z.eqb_refl. cbn [andb negb]. cbv iota.
+    rewrite sp_shape_dadj. cbn [list_eqb]. rewrite Z.eqb_refl. cbn [andb negb]. cbv iota.
+    reflexivity.
+  Qed.
+
+  (* zero-stuffed strided output, zero outside [0, L) *)
+  Definition stuff1 (g : Z -> R) (v : Z) : R := win Ln (fun w => if (w mod s =? 0)%Z then g (w / s)%Z else 0) v.
+
+  Lemma stride_range w : (0 <= w < Ln)%Z -> (0 <= w / s < P)%Z.
+  Proof.
+    intros Hw. rewrite <- (strided_P full m n s Hv). split; [apply Z.div_pos; lia|].
+    replace (Ln + s - 1)%Z with ((Ln - 1) + 1 * s)%Z by ring. rewrite Z.div_add by lia.
+    assert (w / s <= (Ln - 1) / s)%Z by (apply Z.div_le_mono; lia). lia.
+  Qed.
+
+  Lemma stuff1_ext g g' v : (forall q, (0 <= q < P)%Z -> g q = g' q) -> stuff1 g v = stuff1 g' v.
+  Proof.
+    intros H. unfold stuff1. apply win_ext. intros w Hw. destruct (w mod s =? 0)%Z; [|reflexivity].
+    apply H, stride_range, Hw.
+  Qed.
+
+  Lemma zext_stuff (Y : farr) v : zext [Ln] (zero_stuff [s] Y) [v] = stuff1 (fun q => Y [q]) v.
+  Proof.
+    rewrite zext1. unfold stuff1. apply win_ext. intros w _.
+    unfold zero_stuff. cbn [combine forallb fst snd vdiv zip2]. rewrite andb_true_r. reflexivity.
+  Qed.
+
+  Definition dadj1_closed (y filt : farr) (bi : list Z) (i u : Z) : R :=
+    sumZ co (fun c => sumZ n (fun t =>
+      stuff1 (fun q => y (bi ++ [c; q])) (t + u - off1 full m n) * conj (filt [c; i; t]))).
+
+  Lemma out2_at (y : farr) bi c q : inbox b bi -> (0 <= c < co)%Z -> (0 <= q < P)%Z ->
+    reshape (b ++ [co; P]) (B :: co :: [P]) y [ravel b bi; c; q] = y (bi ++ [c; q]).
+  Proof.
+    intros Hbi Hc Hq.
+    pose proof (plen_pos full m n s Hm Hn Hs Hv) as HP.
+    rewrite (reshape_flat_in R b [co; P] y (ravel b bi) [c; q]).
+    - rewrite unravel_ravel by exact Hbi. reflexivity.
+    - exact Hb.
+    - repeat constructor; assumption.
+    - apply ravel_bound, Hbi.
+    - simpl. lia.
+  Qed.
+
+  Lemma data_adjoint_1d_value (y filt : farr) bi i u :
+    inbox b bi -> (0 <= i < ci)%Z -> (0 <= u < m)%Z ->
+    reshape (B :: ci :: [m]) (b ++ [ci; m]) (dadj_out2 y filt) (bi ++ [i; u]) = dadj1_closed y filt bi i u.
+  Proof.
+    intros Hbi Hi Hu.
+    rewrite (reshape_flat_out R b [ci; m]); [| repeat constructor; assumption | exact Hbi | simpl; lia].
+    unfold dadj_out2, dadj1_closed. rewrite sumL_range0. apply sumZ_ext. intros c Hc.
+    unfold sp_correlate_val. rewrite corr_shift_dadj. cbn [osumB vadd vsub zip2]. rewrite sumL_range0.
+    apply sumZ_ext. intros t Ht. rewrite zext_stuff. f_equal.
+    - apply stuff1_ext. intros q Hq. unfold sub2. apply out2_at; assumption.
+    - unfold sub2. f_equal. apply reshape_id. simpl. lia.
+  Qed.
+
+  (* ================= the algebra ================= *)
+  Lemma stuff_equiv v :
+    ((v mod s =? 0) && (0 <=? v / s) && (v / s <? P))%Z = ((0 <=? v) && (v <? Ln) && (v mod s =? 0))%Z.
+  Proof.
+    rewrite <- (strided_P full m n s Hv).
+    apply eq_true_iff_eq. rewrite !andb_true_iff, !Z.eqb_eq, !Z.leb_le, !Z.ltb_lt.
+    split.
+    - intros [[Hm0 Hq0] Hq1].
+      assert (E : (v = s * (v / s))%Z) by (apply Z_div_exact_full_2; lia).
+      pose proof (Z.mul_div_le (Ln + s - 1) s Hs) as Hle.
+      remember (v / s)%Z as q. remember ((Ln + s - 1) / s)%Z as pp. split; [split|]; try assumption; nia.
+    - intros [[Hv0 Hv1] Hm0].
+      assert (E : (v = s * (v / s))%Z) by (apply Z_div_exact_full_2; lia).
+      split; [split|]; [assumption | apply Z.div_pos; lia |].
+      assert (Hq : (v / s + 1 <= (Ln + s - 1) / s)%Z).
+      { apply Z.div_le_lower_bound; [lia|]. remember (v / s)%Z as q. nia. }
+      lia.
+  Qed.
+
+  (* sum over the strided positions that hit v  =  the zero-stuffed array at v *)
+  Lemma stuff_sum (g : Z -> R) v :
+    sumZ P (fun p => if (p * s + 0 =? v)%Z then g p else 0) = stuff1 g v.
+  Proof.
+    rewrite (sumZ_affine_single R P s 0 v g Hs). rewrite Z.sub_0_r, stuff_equiv.
+    unfold stuff1, win.
+    destruct ((0 <=? v)%Z && (v <? Ln)%Z); cbn [andb]; [|reflexivity]. reflexivity.
+  Qed.
+
+  Notation off := (off1 full m n).
+
+  (* sum_t win(x)(p s + off - t) f_t  =  sum_u (sum_t [u = p s + off - t] f_t) x_u *)
+  Lemma duality_fwd (X f : Z -> R) p :
+    sumZ n (fun t => win m X (p * s + off - t) * f t) =
+    sumZ m (fun u => sumZ n (fun t => if (u =? p * s + off - t)%Z then f t else 0) * X u).
+  Proof.
+    rewrite (sumZ_ext R m _ (fun u => sumZ n (fun t => (if (u =? p * s + off - t)%Z then f t else 0) * X u)))
+      by (intros; apply sumZ_scale_r).
+    rewrite sumZ_exchange. apply sumZ_ext. intros t _.
+    rewrite (sumZ_ext R m _ (fun u => if (u =? p * s + off - t)%Z then f t * X u else 0))
+      by (intros u _; destruct (u =? p * s + off - t)%Z; ring).
+    rewrite sumZ_pick. unfold win. destruct ((0 <=? p * s + off - t)%Z && (p * s + off - t <? m)%Z); ring.
+  Qed.
+
+  (* sum_t stuffed(y)(t + u - off) g_t  =  sum_p (sum_t [u = p s + off - t] g_t) y_p *)
+  Lemma duality_bwd (Y g : Z -> R) u :
+    sumZ n (fun t => stuff1 Y (t + u - off) * g t) =
+    sumZ P (fun p => sumZ n (fun t => if (u =? p * s + off - t)%Z then g t else 0) * Y p).
+  Proof.
+    rewrite (sumZ_ext R P _ (fun p => sumZ n (fun t => (if (u =? p * s + off - t)%Z then g t else 0) * Y p)))
+      by (intros; apply sumZ_scale_r).
+    rewrite sumZ_exchange. apply sumZ_ext. intros t _.
+    rewrite <- stuff_sum. rewrite sumZ_scale_r. apply sumZ_ext. intros p _.
+    destruct (Z.eqb_spec u (p * s + off - t)), (Z.eqb_spec (p * s + 0) (t + u - off)); try ring; exfalso; lia.
+  Qed.
+
+  (* kernels of convolve as an operator on the data (per batch element), and of its adjoint *)
+  Definition Kd (filt : farr) (o i : list Z) : R :=
+    match o, i with
+    | [c; p], [i0; u] => sumZ n (fun t => if (u =? p * s + off - t)%Z then filt [c; i0; t] else 0)
+    | _, _ => 0
+    end.
+  Definition Kd' (filt : farr) (i o : list Z) : R :=
+    match i, o with
+    | [i0; u], [c; p] => sumZ n (fun t => if (u =? p * s + off - t)%Z then conj (filt [c; i0; t]) else 0)
+    | _, _ => 0
+    end.
+
+  Lemma Kd_conj filt o i : inbox [co; P] o -> inbox [ci; m] i -> Kd' filt i o = conj (Kd filt o i).
+  Proof.
+    destruct o as [|c [|p [|]]]; simpl; try tauto. destruct i as [|i0 [|u [|]]]; simpl; try tauto. intros _ _.
+    rewrite sumZ_conj. apply sumZ_ext. intros t _. destruct (u =? p * s + off - t)%Z; [reflexivity| symmetry; apply conj_zero].
+  Qed.
+
+  Lemma conv_is_kernel (data filt : farr) bi c p :
+    conv1_closed data filt bi c p = kernel_op [ci; m] (Kd filt) (fun i => data (bi ++ i)) [c; p].
+  Proof.
+    unfold conv1_closed, kernel_op. cbn [sumB Kd]. apply sumZ_ext. intros i _.
+    apply (duality_fwd (fun u => data (bi ++ [i; u])) (fun t => filt [c; i; t]) p).
+  Qed.
+
+  Lemma dadj_is_kernel (y filt : farr) bi i u :
+    dadj1_closed y filt bi i u = kernel_op [co; P] (Kd' filt) (fun o => y (bi ++ o)) [i; u].
+  Proof.
+    unfold dadj1_closed, kernel_op. cbn [sumB Kd']. apply sumZ_ext. intros c _.
+    apply (duality_bwd (fun q => y (bi ++ [c; q])) (fun t => conj (filt [c; i; t])) u).
+  Qed.
+
+  Theorem data_adjoint_1d (filt x y : farr) :
+    inner (b ++ [co; P]) (reshape (B :: co :: [P]) (b ++ [co; P]) (conv_out2 x filt)) y =
+    inner (b ++ [ci; m]) x (reshape (B :: ci :: [m]) (b ++ [ci; m]) (dadj_out2 y filt)).
+  Proof.
+    unfold inner. rewrite !sumB_app. apply sumB_ext. intros bi Hbi.
+    transitivity (inner [co; P] (kernel_op [ci; m] (Kd filt) (fun i => x (bi ++ i))) (fun o => y (bi ++ o))).
+    { unfold inner. apply sumB_ext. intros o Ho. destruct o as [|c [|p [|]]]; simpl in Ho; try tauto.
+      rewrite conv_1d_value by (try assumption; lia). rewrite conv_is_kernel. reflexivity. }
+    rewrite (kernel_adjoint R [ci; m] [co; P] (Kd filt) (Kd' filt)) by (intros; apply Kd_conj; assumption).
+    unfold inner. apply sumB_ext. intros i Hi. destruct i as [|i0 [|u [|]]]; simpl in Hi; try tauto.
+    rewrite data_adjoint_1d_value by (try assumption; lia). rewrite dadj_is_kernel. reflexivity.
+  Qed.
+
+  (* ================= filter adjoint ================= *)
+  Lemma filt_amode_1d : filt_adjoint_mode full [m] [n] = false.
+  Proof.
+    unfold filt_adjoint_mode. destruct full; [reflexivity|]. specialize (Hv eq_refl).
+    cbn [all_ge combine forallb fst snd]. replace (n <=? m)%Z with true by (symmetry; apply Z.leb_le; lia). reflexivity.
+  Qed.
+
+  Lemma Ln_facts : (1 <= Ln)%Z /\ (Z.max Ln m - Z.min Ln m + 1 = n)%Z /\ (Z.max 0 (m - Ln) = off)%Z.
+  Proof.
+    unfold len1, off1. destruct full; [lia|]. specialize (Hv eq_refl). lia.
+  Qed.
+
+  Lemma sp_shape_fadj : sp_shape false [Ln] [m] = Ok [n].
+  Proof.
+    destruct Ln_facts as (H1 & H2 & H3).
+    unfold sp_shape. cbn [all_ge combine forallb fst snd zip2]. rewrite !andb_true_r.
+    assert (E : ((m <=? Ln) || (Ln <=? m))%Z = true).
+    { apply orb_true_iff. rewrite !Z.leb_le. lia. }
+    rewrite E, H2. reflexivity.
+  Qed.
+
+  Lemma corr_shift_fadj : sp_corr_shift false [Ln] [m] = [off].
+  Proof. destruct Ln_facts as (H1 & H2 & H3). unfold sp_corr_shift. cbn [zip2]. rewrite H3. reflexivity. Qed.
+
+  Definition fadj_out2 (y data : farr) : farr :=
+    let data2 := reshape (b ++ [ci; m]) (B :: ci :: [m]) data in
+    let output2 := reshape (b ++ [co; P]) (B :: co :: [P]) y in
+    fun idx => match idx with
+      | j :: i :: t => sumL (zrange 0 B 1) (fun k =>
+            sp_correlate_val false [Ln] [m] (zero_stuff [s] (sub2 output2 k j)) (sub2 data2 k i) t)
+      | _ => 0 end.
+
+  Lemma filter_adjoint_1d_eval (y data : farr) :
+    convolve_filter_adjoint (b ++ [co; P]) (b ++ [ci; m]) [co; ci; n] full (Some [s]) true y data =
+    Ok ([co; ci; n], reshape (co :: ci :: [n]) [co; ci; n] (fadj_out2 y data)).
+  Proof.
+    unfold convolve_filter_adjoint. rewrite conv_params_1d. cbn [bind].
+    change (cv_D [co; ci; n] true) with 1%nat.
+    rewrite lastn1_dsh. change (lastn 1 [co; ci; n]) with [n].
+    change (cv_s 1 (Some [s])) with [s]. change (cv_ci [co; ci; n] 1 true) with ci.
+    pose proof (plen_pos full m n s Hm Hn Hs Hv) as HP.
+    unfold all_pos. cbn [forallb]. replace (0 <? P)%Z with true by (symmetry; apply Z.ltb_lt; exact HP).
+    cbn [andb negb]. cbv iota.
+    rewrite prod_osh. cbn [negb]. cbv iota.
+    rewrite cv_L_1d, filt_amode_1d.
+    unfold strided_shape. cbn [zip2]. rewrite strided_P by exact Hv.
+    unfold zlist_eqb. cbn [list_eqb]. rewrite Z.eqb_refl. cbn [andb negb]. cbv iota.
+    rewrite sp_shape_fadj. cbn [list_eqb]. rewrite Z.eqb_refl. cbn [andb negb]. cbv iota.
+    reflexivity.
+  Qed.
+
+  Definition fadj_term (y data : farr) (c i t : Z) (bi : list Z) : R :=
+    sumZ m (fun l => stuff1 (fun q => y (bi ++ [c; q])) (l + t - off) * conj (data (bi ++ [i; l]))).
+  Definition fadj1_closed (y data : farr) (c i t : Z) : R := sumB b (fadj_term y data c i t).
+
+  Lemma filter_adjoint_1d_value (y data : farr) c i t :
+    (0 <= c < co)%Z -> (0 <= i < ci)%Z -> (0 <= t < n)%Z ->
+    reshape (co :: ci :: [n]) [co; ci; n] (fadj_out2 y data) [c; i; t] = fadj1_closed y data c i t.
+  Proof.
+    intros Hc Hi Ht.
+    pose proof (plen_pos full m n s Hm Hn Hs Hv) as HP.
+    rewrite reshape_id by (simpl; lia).
+    unfold fadj_out2, fadj1_closed. rewrite sumL_range0.
+    rewrite <- (sum_unravel R b (fadj_term y data c i t) Hb). apply sumZ_ext. intros k Hk.
+    unfold sp_correlate_val, fadj_term. rewrite corr_shift_fadj. cbn [osumB vadd vsub zip2]. rewrite sumL_range0.
+    apply sumZ_ext. intros l Hl. rewrite zext_stuff. f_equal.
+    - apply stuff1_ext. intros q Hq. unfold sub2.
+      apply (reshape_flat_in R b [co; P] y k [c; q]); [exact Hb | repeat constructor; assumption | exact Hk | simpl; lia].
+    - unfold sub2. f_equal.
+      apply (reshape_flat_in R b [ci; m] data k [i; l]); [exact Hb | repeat constructor; assumption | exact Hk | simpl; lia].
+  Qed.
+
+  (* duality_bwd for an arbitrary summation length *)
+  Lemma duality_bwd_gen N (Y g : Z -> R) u :
+    sumZ N (fun t => stuff1 Y (t + u - off) * g t) =
+    sumZ P (fun p => sumZ N (fun t => if (u =? p * s + off - t)%Z then g t else 0) * Y p).
+  Proof.
+    rewrite (sumZ_ext R P _ (fun p => sumZ N (fun t => (if (u =? p * s + off - t)%Z then g t else 0) * Y p)))
+      by (intros; apply sumZ_scale_r).
+    rewrite sumZ_exchange. apply sumZ_ext. intros t _.
+    rewrite <- stuff_sum. rewrite sumZ_scale_r. apply sumZ_ext. intros p _.
+    destruct (Z.eqb_spec u (p * s + off - t)), (Z.eqb_spec (p * s + 0) (t + u - off)); try ring; exfalso; lia.
+  Qed.
+
+  Lemma win_conj len (X : Z -> R) e : conj (win len X e) = win len (fun u => conj (X u)) e.
+  Proof. unfold win. destruct ((0 <=? e)%Z && (e <? len)%Z); [reflexivity| apply conj_zero]. Qed.
+
+  Lemma duality_filt (X Y : Z -> R) t :
+    sumZ m (fun l => stuff1 Y (l + t - off) * conj (X l)) =
+    sumZ P (fun p => conj (win m X (p * s + off - t)) * Y p).
+  Proof.
+    rewrite (duality_bwd_gen m Y (fun l => conj (X l)) t). apply sumZ_ext. intros p _. f_equal.
+    rewrite win_conj.
+    rewrite (sumZ_ext R m _ (fun l => if (l =? p * s + off - t)%Z then conj (X l) else 0)).
+    - rewrite sumZ_pick. reflexivity.
+    - intros l _. destruct (Z.eqb_spec t (p * s + off - l)), (Z.eqb_spec l (p * s + off - t)); try reflexivity; exfalso; lia.
+  Qed.
+
+  (* kernels of convolve as an operator on the filter, for one batch element, and of its adjoint *)
+  Definition Kf (data : farr) (bi : list Z) (o i : list Z) : R :=
+    match o, i with
+    | [c; p], [c'; i0; t] => if (c' =? c)%Z then win m (fun u => data (bi ++ [i0; u])) (p * s + off - t) else 0
+    | _, _ => 0
+    end.
+  Definition Kf' (data : farr) (bi : list Z) (i o : list Z) : R :=
+    match i, o with
+    | [c'; i0; t], [c; p] => if (c' =? c)%Z then conj (win m (fun u => data (bi ++ [i0; u])) (p * s + off - t)) else 0
+    | _, _ => 0
+    end.
+
+  Lemma Kf_conj data bi o i : inbox [co; P] o -> inbox [co; ci; n] i -> Kf' data bi i o = conj (Kf data bi o i).
+  Proof.
+    destruct o as [|c [|p [|]]]; simpl; try tauto. destruct i as [|c' [|i0 [|t [|]]]]; simpl; try tauto. intros _ _.
+    destruct (c' =? c)%Z; [reflexivity| symmetry; apply conj_zero].
+  Qed.
+
+  Lemma conv_is_kernel_f (data filt : farr) bi c p : (0 <= c < co)%Z ->
+    conv1_closed data filt bi c p = kernel_op [co; ci; n] (Kf data bi) filt [c; p].
+  Proof.
+    intros Hc. unfold conv1_closed, kernel_op. cbn [sumB Kf].
+    rewrite (sumZ_ext R co _ (fun c' => if (c' =? c)%Z then
+       sumZ ci (fun i => sumZ n (fun t => win m (fun u => data (bi ++ [i; u])) (p * s + off - t) * filt [c'; i; t])) else 0)).
+    - rewrite sumZ_pick. replace ((0 <=? c)%Z && (c <? co)%Z) with true; [reflexivity|].
+      symmetry. apply andb_true_iff. rewrite Z.leb_le, Z.ltb_lt. lia.
+    - intros c' _. destruct (c' =? c)%Z; [reflexivity|].
+      apply sumZ_none. intros i _. apply sumZ_none. intros t _. ring.
+  Qed.
+
+  Lemma fadj_is_kernel (y data : farr) bi c i t : (0 <= c < co)%Z ->
+    fadj_term y data c i t bi = kernel_op [co; P] (Kf' data bi) (fun o => y (bi ++ o)) [c; i; t].
+  Proof.
+    intros Hc. unfold fadj_term, kernel_op. cbn [sumB Kf'].
+    rewrite (sumZ_ext R co _ (fun c0 => if (c0 =? c)%Z then
+       sumZ P (fun p => conj (win m (fun u => data (bi ++ [i; u])) (p * s + off - t)) * y (bi ++ [c0; p])) else 0)).
+    - rewrite sumZ_pick. replace ((0 <=? c)%Z && (c <? co)%Z) with true
+        by (symmetry; apply andb_true_iff; rewrite Z.leb_le, Z.ltb_lt; lia).
+      apply (duality_filt (fun l => data (bi ++ [i; l])) (fun q => y (bi ++ [c; q])) t).
+    - intros c0 _. rewrite (Z.eqb_sym c c0). destruct (c0 =? c)%Z; [reflexivity|].
+      apply sumZ_none. intros p _. ring.
+  Qed.
+
+  Theorem filter_adjoint_1d (data f y : farr) :
+    inner (b ++ [co; P]) (reshape (B :: co :: [P]) (b ++ [co; P]) (conv_out2 data f)) y =
+    inner [co; ci; n] f (reshape (co :: ci :: [n]) [co; ci; n] (fadj_out2 y data)).
+  Proof.
+    transitivity (sumB b (fun bi => inner [co; ci; n] f (kernel_op [co; P] (Kf' data bi) (fun o => y (bi ++ o))))).
+    { unfold inner at 1. rewrite sumB_app. apply sumB_ext. intros bi Hbi.
+      rewrite <- (kernel_adjoint R [co; ci; n] [co; P] (Kf data bi) (Kf' data bi)) by (intros; apply Kf_conj; assumption).
+      unfold inner. apply sumB_ext. intros o Ho. destruct o as [|c [|p [|]]]; simpl in Ho; try tauto.
+      rewrite conv_1d_value by (try assumption; lia). rewrite conv_is_kernel_f by lia. reflexivity. }
+    rewrite inner_sumB_r. unfold inner. apply sumB_ext. intros i Hi.
+    destruct i as [|c [|i0 [|t [|]]]]; simpl in Hi; try tauto.
+    rewrite filter_adjoint_1d_value by lia. unfold fadj1_closed. f_equal. f_equal.
+    apply sumB_ext. intros bi _. symmetry. apply fadj_is_kernel. lia.
+  Qed.
 End C1.
+
+(* valid mode with a filter longer than the data: non-positive output length, rejected *)
+Section NonPos.
+  Variable R : Ops.
+  Lemma valid_longer_filter_1d b ci co m n s : 0 < s -> m < n ->
+    (forall d f : list Z -> R, convolve (b ++ [ci; m]) [co; ci; n] false (Some [s]) true d f = Err E_nonpos) /\
+    (forall osh (y f : list Z -> R), convolve_data_adjoint osh [co; ci; n] (b ++ [ci; m]) false (Some [s]) true y f = Err E_nonpos) /\
+    (forall osh (y d : list Z -> R), convolve_filter_adjoint osh (b ++ [ci; m]) [co; ci; n] false (Some [s]) true y d = Err E_nonpos).
+  Proof.
+    intros Hs Hmn.
+    assert (Hp : (0 <? plen false m n s) = false).
+    { apply Z.ltb_ge. unfold plen. assert ((m - n + 1 + s - 1) / s < 1); [|lia]. apply Z.div_lt_upper_bound; lia. }
+    repeat split; intros; unfold convolve, convolve_data_adjoint, convolve_filter_adjoint;
+      rewrite conv_params_1d; cbn [bind]; unfold all_pos; cbn [forallb]; rewrite Hp; reflexivity.
+  Qed.
+End NonPos.
